@@ -1,7 +1,7 @@
 #!/bin/sh
 # eval_wave.sh <Cxx> [extra properties...] : evaluate every deliverable of the mutation agent for <Cxx>
 # (/tmp/mut/<Cxx>/deliver/<slug>/) with seed_eval.py; results go to /verif/seeded/<Cxx>-<slug>/.
-id=$1; shift; prop=${id%R2}
+id=$1; shift; prop=$(echo "$id" | sed "s/R[0-9]*$//")
 for d in /tmp/mut/$id/deliver/*/; do
   [ -f "$d/patch.diff" ] || continue
   python3 "$(dirname "$0")/seed_eval.py" "$prop" "$d" "$@"
